@@ -173,6 +173,13 @@ def set_objective(
                 f"class optlang.interface.Objective, not of {type(value)}"
             )
 
+        # Check the reactions before the objective is replaced so that a failure
+        # leaves the objective as it was.
+        for reaction in value:
+            if reaction.forward_variable is None:
+                raise ValueError(
+                    f"invalid objective: reaction '{reaction.id}' is not in a model"
+                )
         if not additive:
             model.solver.objective = interface.Objective(
                 Zero, direction=model.solver.objective.direction
